@@ -167,11 +167,21 @@ def run(ctx):
             b = names[(gi + 2 * di + 1) % len(names)]          # sometimes the same: a structure and its own copy
             # every third union: the second part's numbering starts with the number the first part ends with
             combos.append((a, b, gap, d, (gi + di) % 2, (gi + 2 * di) % 3 == 0))
+    # a structure with a bound ligand and its own copy in the SAME chain, residue numbers + 1000 (several identical
+    # ligands assigned to one chain): ligand groups of the two copies carry the same label
+    ps["1FTJ+ligand"] = [ln for ln in C.body(C.test_pdb_text("1FTJ-Chain-A")) if C.is_atom(ln) and ln[17:20] != "HOH"]
+    same = [("1FTJ+ligand", "1FTJ+ligand", gap, d, order, "same-chain")
+            for gap, d, order in ((30000, (1, 0, 0), 0), (1500000, (0, 1, 0), 1), (26000, (0, 0, -1), 1), (400000, (1, 1, 0), 0))]
+    combos += same if ctx.thorough() else [same[ctx.seed % 2]]
     rels = []
     skipped = 0
     for a, b, gap, d, order, meet in combos:
         al = ps[a]
-        bl = fresh_chains(ps[b], {ln[21] for ln in al if C.is_atom(ln)})
+        if meet == "same-chain":
+            bl = C.shift_numbers(al, 1000)
+            meet = False
+        else:
+            bl = fresh_chains(ps[b], {ln[21] for ln in al if C.is_atom(ln)})
         if meet:
             first, second = (al, bl) if order == 0 else (bl, al)
             n_last = [C.resid(ln)[1] for ln in first if C.is_atom(ln)][-1]
